@@ -370,9 +370,13 @@ def _estimate(ctx, case, cfg, iu, pool, swap, what, want_img, shift):
         else:
             G1, G2 = order(pool.fft_t())
             r = fn(G1, G2, up).detach().cpu().numpy()
-    r = np.asarray(r, dtype=np.float64).ravel()
+    try:
+        r = np.asarray(r, dtype=np.float64).ravel()
+    except (TypeError, ValueError):
+        # e.g. a (shifts, image) tuple although no aligned image was requested
+        raise core.Violation("%s: result is not a pair of numbers: %s" % (what, repr(r)[:200]), case)
     if r.shape != (2,) or not np.all(np.isfinite(r)):
-        raise core.Violation("%s: result is not a finite pair: %r" % (what, r.tolist()), case)
+        raise core.Violation("%s: result is not a finite pair: %r" % (what, r.tolist()[:8]), case)
     if aligned is not None:
         aligned = np.asarray(aligned)
         if aligned.shape != pool.a.shape:
